@@ -50,6 +50,21 @@ fn op_str(o: &WalOpRaw) -> String {
     }
 }
 fn keydec<K: KeyBytes>(b: &[u8]) -> bool { K::from_key_bytes(b).is_some() }
+// typed snapshot round trip: the real encoder on a map ordered by K's Ord, the real decoder, compared as sets
+fn rtidx<K: KeyBytes + Ord + Clone>(ver: u64, entries: &[(Vec<u8>, BlobHash, u64)]) -> String {
+    let mut m: BTreeMap<K, (BlobHash, u64)> = BTreeMap::new();
+    for (k, h, s) in entries { if let Some(key) = K::from_key_bytes(k) { m.insert(key, (*h, *s)); } }
+    let bytes = cassadilia::verif::serialize_index(&m, NonZeroU64::new(ver));
+    match cassadilia::verif::deserialize_index(&bytes) {
+        Err(e) => format!("err {}", derr(&e)),
+        Ok((es, _)) => {
+            let mut got: Vec<(Vec<u8>, Vec<u8>, u64)> = es.iter().map(|(k, h, s)| (k.clone(), h.as_bytes().to_vec(), *s)).collect();
+            let mut want: Vec<(Vec<u8>, Vec<u8>, u64)> = m.iter().map(|(k, (h, s))| (k.to_key_bytes_owned(), h.as_bytes().to_vec(), *s)).collect();
+            got.sort(); want.sort();
+            if got == want { format!("same {}", want.len()) } else { "differs".into() }
+        }
+    }
+}
 fn keycmp<K: KeyBytes + Ord>(a: &[u8], b: &[u8]) -> String {
     match (K::from_key_bytes(a), K::from_key_bytes(b)) {
         (Some(x), Some(y)) => format!("{:?}", x.cmp(&y)),
@@ -93,6 +108,11 @@ pub fn main(args: &[String]) {
                     (match r {
                         Ok((es, v)) => format!("ok {} [{}]", v, es.iter().map(|(k, h, s)| format!("{}={}:{}", hex(k), hex(h.as_bytes()), s)).collect::<Vec<_>>().join(";")),
                         Err(e) => format!("err {}", derr(&e)) }, peak)
+                }
+                "rtidx" => {
+                    let es: Vec<(Vec<u8>, BlobHash, u64)> = t[3].split(';').map(|e| { let (k, v) = e.split_once('=').unwrap(); let (h, s) = v.split_once(':').unwrap(); (unhex(k), h32(h), s.parse().unwrap()) }).collect();
+                    let ver: u64 = t[2].parse().unwrap();
+                    (kt_dispatch!(t[1], rtidx, ver, &es), 0)
                 }
                 "keydec" => { let b = unhex(t[2]); (if kt_dispatch!(t[1], keydec, &b) { "some".into() } else { "none".into() }, 0) }
                 "keycmp" => { let (a, b) = (unhex(t[2]), unhex(t[3])); (kt_dispatch!(t[1], keycmp, &a, &b), 0) }
